@@ -31,12 +31,13 @@ share one map entry, hence at most one record. Further parts added in session 4,
   `C12_one_path_one_file_false` / `_partial`; finding C12-outside-source-dir-keeps-own-name);
 * Java/Kotlin keys (`Rewrite.addThenRewriteJ`): with every covered file on disk the partial-path
   lookup is off and guard 2 carries over (`C12_java_all_on_disk_unique`); with ONE covered file
-  missing the lookup runs on every .java/.kt key, existing files included, and an existing file is
-  re-mapped to a deeper file whose path ends with its own when the walk yields that one first
-  (`C12_java_nested_remap_witness`, `C12_java_existing_once_false`; finding
-  C12-partial-path-remaps-existing-file); `…_partial` under "the lookup returns the key's own path";
-  sibling modules `app` / `webapp` are fine (`C12_java_sibling_modules_witness`: component-wise
-  `ends_with`, which is what seed C12-4 replaces by a textual one);
+  missing the lookup runs, but — since fix fdef150, which repaired finding
+  C12-partial-path-remaps-existing-file — not on a path that names a file below the source dir:
+  `C12_java_existing_once` (full strength: existing files keep one record each under their own
+  path, for every walk order), `C12_java_nested_no_remap_witness`, and
+  `C12_java_nested_remap_regression` about the old step; sibling modules `app` / `webapp`
+  (`C12_java_sibling_modules_witness`; seed C12-4 replaces the component-wise `ends_with` by a
+  textual one);
 * `add_results` after fix 7f9b2b3: a canonical path that is not UTF-8 is not used as key
   (`Rewrite.addCanonU`, `C12_addCanonU_agrees`, `C12_non_utf8_canonical_not_merged`);
 * the HTML writer's view of duplicates (`C12_html_totals_count_once`, `C12_html_totals_false`,
@@ -721,22 +722,37 @@ def nestedMap : List (Bytes × Cov) :=
    ([47, 115, 47, 113, 47, 97, 112, 112, 47, 77, 46, 106, 97, 118, 97], { lines := [(1, 2)] }),
    ([103, 101, 110, 47, 71, 46, 106, 97, 118, 97], { lines := [(1, 7)] })]
 
-/-- A nested module is not: `q/app/M.java` ENDS WITH `app/M.java`, the walk yields it first, and the
-EXISTING file `app/M.java` — named by a key `add_results` canonicalised — is reported as
-`q/app/M.java`, next to that file's own record (finding C12-partial-path-remaps-existing-file). -/
-theorem C12_java_nested_remap_witness :
+/-- A nested module: `q/app/M.java` ENDS WITH `app/M.java` and the walk yields it first. Before fix
+fdef150 the EXISTING file `app/M.java` — named by a key `add_results` canonicalised — was looked up
+like a partial path and reported as `q/app/M.java`, next to that file's own record (former finding
+C12-partial-path-remaps-existing-file). Since the fix a path that names a file below the source dir
+is kept: three files, three records. -/
+theorem C12_java_nested_no_remap_witness :
     addThenRewriteJ { sourceDir := some [47, 115], prefixDir := some [47, 115] } nestedFS nestedOrd
         [([97, 112, 112, 47, 77, 46, 106, 97, 118, 97], { lines := [(1, 1)] }),
          ([113, 47, 97, 112, 112, 47, 77, 46, 106, 97, 118, 97], { lines := [(1, 2)] }),
          ([103, 101, 110, 47, 71, 46, 106, 97, 118, 97], { lines := [(1, 7)] })]
-      = .ok [⟨[47, 115, 47, 113, 47, 97, 112, 112, 47, 77, 46, 106, 97, 118, 97], [113, 47, 97, 112, 112, 47, 77, 46, 106, 97, 118, 97], { lines := [(1, 1)] }⟩,
+      = .ok [⟨[47, 115, 47, 97, 112, 112, 47, 77, 46, 106, 97, 118, 97], [97, 112, 112, 47, 77, 46, 106, 97, 118, 97], { lines := [(1, 1)] }⟩,
              ⟨[47, 115, 47, 113, 47, 97, 112, 112, 47, 77, 46, 106, 97, 118, 97], [113, 47, 97, 112, 112, 47, 77, 46, 106, 97, 118, 97], { lines := [(1, 2)] }⟩,
              ⟨[47, 115, 47, 103, 101, 110, 47, 71, 46, 106, 97, 118, 97], [103, 101, 110, 47, 71, 46, 106, 97, 118, 97], { lines := [(1, 7)] }⟩] := by
   decide +kernel
 
-/-- Full statement for result maps in which SOME covered file is missing: the records of the map
-keys that are canonical paths of existing files below `S` (any sub-list `sub` of the map `m`; the
-other keys may be anything) have pairwise distinct reported paths. -/
+/-- Regression about the OLD behaviour: on that map the lookup is needed, and the step without the
+"names a file" test (`partialStep`, the code before fdef150) sends `app/M.java` to `q/app/M.java`,
+the step of the current code (`partialStepF`) keeps it. -/
+theorem C12_java_nested_remap_regression :
+    let cfg : Cfg := { sourceDir := some [47, 115], prefixDir := some [47, 115] }
+    let ks := nestedMap.map (·.1)
+    needed cfg nestedFS ks = true ∧
+    partialStep (needed cfg nestedFS ks) (fileToPaths nestedFS nestedOrd cfg ks) [97, 112, 112, 47, 77, 46, 106, 97, 118, 97]
+      = [113, 47, 97, 112, 112, 47, 77, 46, 106, 97, 118, 97] ∧
+    partialStepF nestedFS cfg.sourceDir (needed cfg nestedFS ks) (fileToPaths nestedFS nestedOrd cfg ks)
+      [97, 112, 112, 47, 77, 46, 106, 97, 118, 97] = [97, 112, 112, 47, 77, 46, 106, 97, 118, 97] := by
+  decide +kernel
+
+/-- Statement for result maps in which SOME covered file is missing (so the lookup runs): the
+records of the map keys that are canonical paths of existing files below `S` (any sub-list `sub` of
+the map `m`; the other keys may be anything) have pairwise distinct reported paths. -/
 def C12_java_existing_once_stmt : Prop :=
   ∀ (cfg : Cfg) (fs : FS) (sn : List Bytes) (ord : List (List Bytes)) (m sub : List (Bytes × Cov)),
     cfg.sourceDir = some (render ⟨true, sn⟩) → cfg.mapping = none →
@@ -745,32 +761,11 @@ def C12_java_existing_once_stmt : Prop :=
     (∀ kc ∈ sub, CanonKey fs sn kc.1) →
     ((sub.filterMap fun kc => okPart (keyFnJ cfg fs ord m kc)).map (·.rel)).Nodup
 
-theorem C12_java_existing_once_false : ¬ C12_java_existing_once_stmt := by
-  intro h
-  have := h { sourceDir := some [47, 115], prefixDir := some [47, 115] } nestedFS [[115]] nestedOrd nestedMap
-    (nestedMap.take 2) (by decide) rfl (Or.inr (by decide)) (by decide) (by unfold NodupKeys keys; decide)
-    (List.take_sublist 2 nestedMap)
-    (by
-      intro kc hkc
-      simp only [nestedMap, List.take, List.mem_cons, List.not_mem_nil, or_false] at hkc
-      rcases hkc with rfl | rfl
-      · exact ⟨[[97, 112, 112], [77, 46, 106, 97, 118, 97]], by decide, by decide, by decide, by decide +kernel⟩
-      · exact ⟨[[113], [97, 112, 112], [77, 46, 106, 97, 118, 97]], by decide, by decide, by decide, by decide +kernel⟩)
-  revert this
-  decide +kernel
-
-/-- It holds under the guard the witness violates: the lookup returns every such key's own path
-(no other candidate of that file name comes first among those that end with the path; in particular
-when the lookup is not needed, the key is not Java/Kotlin, or no file of the tree has its name). -/
-theorem C12_java_existing_once_partial (cfg : Cfg) (fs : FS) (sn : List Bytes) (ord : List (List Bytes))
-    (m sub : List (Bytes × Cov))
-    (hS : cfg.sourceDir = some (render ⟨true, sn⟩)) (hM : cfg.mapping = none)
-    (hP : cfg.prefixDir = none ∨ cfg.prefixDir = some (render ⟨true, sn⟩))
-    (hsn : ∀ n ∈ sn, RealName n ∧ 92 ∉ n) (hm : NodupKeys m) (hsub : sub.Sublist m)
-    (hcan : ∀ kc ∈ sub, CanonKey fs sn kc.1)
-    (hid : ∀ kc ∈ sub, partialStep (needed cfg fs (m.map (·.1))) (fileToPaths fs ord cfg (m.map (·.1)))
-      (keyPath cfg kc.1) = keyPath cfg kc.1) :
-    ((sub.filterMap fun kc => okPart (keyFnJ cfg fs ord m kc)).map (·.rel)).Nodup := by
+/-- It holds at full strength since fix fdef150 (it was false before: the nested-module witness):
+such a key names a file below the source dir, the lookup leaves it alone, and it is reported under
+its own source-relative path — for every walk order and whatever the other keys are. -/
+theorem C12_java_existing_once : C12_java_existing_once_stmt := by
+  intro cfg fs sn ord m sub hS hM hP hsn hm hsub hcan
   have hsn1 : ∀ n ∈ sn, RealName n := fun n hn' => (hsn n hn').1
   have hsubnd : NodupKeys sub := by
     unfold NodupKeys keys at *
@@ -784,8 +779,11 @@ theorem C12_java_existing_once_partial (cfg : Cfg) (fs : FS) (sn : List Bytes) (
   · intro kc hkc r hr
     obtain ⟨names, hne, hn, ek, hres⟩ := hcan kc hkc
     rw [ek, hG names hn]
+    have hnf : namesFile fs cfg.sourceDir (keyPath cfg kc.1) = true := by
+      rw [ek]; exact namesFile_canonical_key hS hM hP hsn hn hne hres
     have hr' : rewriteKey cfg fs kc = .ok (some r) := by
-      have : keyFnJ cfg fs ord m kc = rewriteKey cfg fs kc := rewriteKeyJ_eq_of_id (hid kc hkc)
+      have : keyFnJ cfg fs ord m kc = rewriteKey cfg fs kc :=
+        rewriteKeyJ_eq_of_id (partialStepF_id (Or.inr (Or.inr (Or.inr hnf))))
       rw [this] at hr
       exact (keyRec_eq_some _ _ _ _).1 hr
     have : kc = (render ⟨true, sn ++ names⟩, kc.2) := by rw [← ek]
@@ -800,13 +798,23 @@ theorem C12_java_existing_once_partial (cfg : Cfg) (fs : FS) (sn : List Bytes) (
     have := join_injective (fun n h => (hn1 n h).1) (fun n h => (hn2 n h).1) e
     rw [e1, e2, this]
 
-/-- the guard on the sibling-module map: each existing file's path is mapped to itself -/
+/-- the hypotheses on the nested-module map: its first two keys are canonical keys -/
+example : ∀ kc ∈ nestedMap.take 2, CanonKey nestedFS [[115]] kc.1 := by
+  intro kc hkc
+  simp only [nestedMap, List.take, List.mem_cons, List.not_mem_nil, or_false] at hkc
+  rcases hkc with rfl | rfl
+  · exact ⟨[[97, 112, 112], [77, 46, 106, 97, 118, 97]], by decide, by decide, by decide, by decide +kernel⟩
+  · exact ⟨[[113], [97, 112, 112], [77, 46, 106, 97, 118, 97]], by decide, by decide, by decide, by decide +kernel⟩
+
+/-- on the sibling-module map each existing file's path is mapped to itself, with and without the
+"names a file" test (component-wise `ends_with`) -/
 example : ∀ kc ∈ [(([47, 115, 47, 97, 112, 112, 47, 77, 46, 106, 97, 118, 97] : Bytes), ({} : Cov)),
       ([47, 115, 47, 119, 101, 98, 97, 112, 112, 47, 77, 46, 106, 97, 118, 97], {})],
     let cfg : Cfg := { sourceDir := some [47, 115], prefixDir := some [47, 115] }
     let ks : List Bytes := [[47, 115, 47, 97, 112, 112, 47, 77, 46, 106, 97, 118, 97],
       [47, 115, 47, 119, 101, 98, 97, 112, 112, 47, 77, 46, 106, 97, 118, 97], [103, 101, 110, 47, 71, 46, 106, 97, 118, 97]]
     needed cfg siblingFS ks = true ∧
+    partialStepF siblingFS cfg.sourceDir (needed cfg siblingFS ks) (fileToPaths siblingFS siblingOrd cfg ks) (keyPath cfg kc.1) = keyPath cfg kc.1 ∧
     partialStep (needed cfg siblingFS ks) (fileToPaths siblingFS siblingOrd cfg ks) (keyPath cfg kc.1) = keyPath cfg kc.1 := by
   decide +kernel
 
